@@ -7,7 +7,7 @@ Line protocol of the C16 correspondence run (same request file as harness/src/bi
   `(type <texpr>)`                     -> `ok <TYPE>` | `err`
   `(ptype <tplan>)`                    -> `ok (<TYPE>*)` | `err`
   `(ins <mem|disk> (decls (<TY> <null|notnull>)*) (rows (<val>*)*))`
-                                       -> `ok (<val>*)*` rows of `SELECT *`, sorted
+                                       -> `ok (<val>*)* ;; ok <spec rows> ;; <tag>*`  rows of `SELECT *`, sorted
 
   texpr : `(leaf T)` | `bad` | `(cast T a)` | `(neg a)` | `(+|-|*|/|% a b)` | `(|| a b)` | `(like a b)`
           | `(not a)` | `(=|<>|>|<|>=|<= a b)` | `(and|or|xor a b)` | `(if c t e)` | `(in x (list a*))`
@@ -145,8 +145,12 @@ def answer (line : String) : String :=
     match parseDecls ds, parseValRows rs with
     | some decls, some rows =>
       let e := if eng == "disk" then Engine.disk else Engine.mem
-      let out := (selectAll e decls rows).map fun r => "(" ++ " ".intercalate (r.map showIVal) ++ ")"
-      "ok " ++ " ".intercalate (insertionSortStr out)
+      let showRows := fun (rs : List (List IVal)) =>
+        " ".intercalate (insertionSortStr (rs.map fun r => "(" ++ " ".intercalate (r.map showIVal) ++ ")"))
+      -- tags only of rows the implementation model actually stores
+      let tags := (rows.filter fun r => (castRow decls r).isOk).map (rowTags e decls) |>.flatten |>.eraseDups
+      "ok " ++ showRows (selectAll e decls rows) ++ " ;; ok " ++ showRows (specTable decls rows)
+        ++ " ;; " ++ " ".intercalate tags
     | _, _ => "bad-request"
   | _ => "bad-request"
 
